@@ -85,6 +85,20 @@ def make_spec(st, idx, tier):
            dict(A, k="poll", history="reused_argument_objects_2", reuse_args=True),
            dict(A, k="poll", history="live_feed_frame_1", inplace_feed=True),
            dict(A, k="poll", history="live_feed_frame_2", inplace_feed=True)]
+    # failed requests in between: one that the library refuses (it names another office / election), one that ends in the
+    # too-few-units error (only the first two deliveries of the night are in the feed)
+    few = []
+    for o in ops:
+        if o["k"] == "deliver" and o["u"] not in [r["geographic_unit_fips"] for r in few]:
+            few.append(dict(o["row"]))
+        if len(few) == 2:
+            break
+    bad = choice(rng, [dict(office=choice(rng, [x for x in ["G", "S", "H", "P"] if x != world["office"]])), dict(election_id="2021-11-02_VA_G"),
+                       dict(unit_type=choice(rng, [x for x in ["precinct", "county", "county-district"] if x != world["unit_type"]]))])
+    seq[5:5] = [dict(k="poll", role="other_args", override=dict(request_ids=bad), national_summary=None),
+                dict(A, k="poll", history="after_rejected_request"),
+                dict(k="poll", role="other_args", rows=few),
+                dict(A, k="poll", history="after_too_few_units_error")]
     if chance(rng, 0.5):
         seq.insert(3, dict(k="poll", role="other_args", override=dict(estimands=(["margin"] if profile["pi_method"] == "bootstrap" else ["turnout"]),
                                                                      prediction_intervals=[0.6]), reuse_args=True))
